@@ -147,6 +147,29 @@ def main(tier):
             scn["dup_spelling"] = True
             chosen.append(inst)
             scns.append(scn)
+        # COND files are Python: ONE list object may be handed to several definitions (`common = [":t1"]` passed as deps= to a
+        # chained run_experiment_group and to other tasks, before or after it). The project below is the documented expansion
+        # (that is what the monitor is configured with); the files on disk use the shared variable and the group macro.
+        for v in range(6):
+            ninst = 2 + v % 2
+            names = ["t%d" % (2 + i) for i in range(ninst)]
+            gi, oi, ti = 2 + ninst, 3 + ninst, 4 + ninst
+            deps = [[]] + [[1] + ([1 + i] if i else []) for i in range(ninst)] + [list(range(2, 2 + ninst)), [1], [oi]]
+            kind = ["cmd"] + ["exp"] * ninst + ["combine", "cmd" if v % 3 else "exp", "group"]
+            g = {"n": ti, "target": ti if v % 2 else oi, "deps": deps, "kind": kind, "par": [False] * ti, "cachedTs": [0] * ti,
+                 "stale": [False] * ti, "again": False, "atLeast": False, "now": 1000, "lastTs0": 0}
+            scn = RC.scenario_from_graph(g, placement=0, jobs=1 + v % 2, sched={"mode": "script", "choices": []})
+            insts_src = ", ".join("ExperimentInstance(name=%r)" % nm for nm in names)
+            grp = "run_experiment_group(name='t%d', run='true', experiments=[%s], chain_experiments=True, deps=common)\n" % (gi, insts_src)
+            other = "%s(name='t%d', run='true', deps=common)\n" % ("run_command" if v % 3 else "run_experiment", oi)
+            src = "common = [':t1']\nrun_command(name='t1', run='true')\n"
+            src += (other + grp) if v >= 3 else (grp + other)
+            src += "group(name='t%d', deps=[':t%d'])\n" % (ti, oi)
+            scn["project"]["raw_cond"] = {"": src}
+            scn["dup_spelling"] = True          # no Planner.tla prediction for these (judged by the monitor only)
+            need = sorted({g["target"], oi, 1})
+            chosen.append({"g": g, "needed": need, "frontier": [], "mustRun": [True] * ti})
+            scns.append(scn)
         results = RC.run_batch(scns)
     verdicts, traces, errs, tr = RC.judge_batch(scns, results)
     for i, r in errs:
